@@ -90,6 +90,71 @@ def canon_keys(v):
     return v
 
 
+# ---------------------------------------------------------------------------------------
+# extra rule-conforming children of Metadata
+# ---------------------------------------------------------------------------------------
+# The statement fixes of the exported tree: a well-formed PcGts in the PAGE namespace, "exactly one Metadata and one
+# Page element, in which every element appears only under parents the PAGE structure rules allow and carries its id",
+# and what the re-parse reproduces ("region nesting, ids, text, polygons, baselines, confidences, custom attributes,
+# image size and reading order").  Nothing of that is produced from the CHILDREN of Metadata: which of the fields the
+# structure rules allow there (Comments, UserDefined, MetadataItem …) an export writes is left free.  So the real tree
+# is compared with the model's up to children of Metadata that the model does not write — but ONLY children the rule
+# table of the code as it is NOW (regenerated by c07_translate on every run: the table the Lean theorems are checked
+# against) allows under Metadata, and only there; the Metadata children the model writes stay compared exactly (count,
+# order, text), and whether an extra child is allowed by the PAGE schema is still judged by the oracle on the real tree.
+_META_ALLOWED: Dict[str, Any] = {}
+
+
+def meta_allowed() -> List[str]:
+    """the child tags is_valid_pagexml_sub_element allows under Metadata (regenerated from the working tree)"""
+    if REPO not in _META_ALLOWED:
+        try:
+            _META_ALLOWED[REPO] = sorted(dict(T.extract(REPO)['childTable']).get('Metadata', []))
+        except Exception:  # noqa  (source shape not understood: reported by the pipeline; nothing is left free then)
+            _META_ALLOWED[REPO] = []
+    return _META_ALLOWED[REPO]
+
+
+def _meta_kids(t) -> List[Any]:
+    if not isinstance(t, dict) or t.get('tag') != 'PcGts':
+        return []
+    return [k for c in t['children'] if c['tag'] == 'Metadata' for k in c['children']]
+
+
+def extra_meta_tags(real_tree, model_tree) -> List[str]:
+    """tags of the children of the real tree's Metadata that the model's Metadata has no child of and that the rule
+    table allows under Metadata"""
+    have = {k['tag'] for k in _meta_kids(model_tree)}
+    ok = set(meta_allowed())
+    return sorted({k['tag'] for k in _meta_kids(real_tree) if k['tag'] not in have and k['tag'] in ok})
+
+
+def drop_meta_children(t, extra: List[str]):
+    """the tree without the children of PcGts/Metadata whose tag is in `extra`"""
+    if not extra or not isinstance(t, dict) or t.get('tag') != 'PcGts':
+        return t
+    return dict(t, children=[dict(c, children=[k for k in c['children'] if k['tag'] not in extra]) if c['tag'] == 'Metadata' else c
+                             for c in t['children']])
+
+
+def drop_meta_keys(v, extra: List[str]):
+    """the same on an xmltodict value in wire form ({'d': [[key, value], …]}): the keys `extra` of PcGts/Metadata removed
+    (a Metadata left without children reads as None, like <Metadata/>)"""
+    if not extra:
+        return v
+    try:
+        (k, root), = v['d']
+        out = []
+        for key, val in root['d']:
+            if key == 'Metadata' and isinstance(val, dict) and set(val) == {'d'}:
+                kept = [e for e in val['d'] if e[0] not in extra]
+                val = {'d': kept} if kept else None
+            out.append([key, val])
+        return {'d': [[k, {'d': out}]]}
+    except Exception:  # noqa
+        return v
+
+
 def all_elems(t, parent=None):
     yield parent, t
     for c in t['children']:
@@ -483,7 +548,11 @@ class C07(Check):
         'text, xheight and a falsy orientation are not exported; table rows/cells are never exported. CORRESPONDENCE LEVEL: exported '
         'trees and xmltodict values are compared up to the order of sibling elements with DIFFERENT tags (same-tag siblings in '
         'order); an export / re-parse that raises is compared as raising-or-not; scans holding table regions are outside the '
-        'quantifier (recorded only); extra scan.metadata keys of the re-parsed scan are ignored. WAVE 4 (case kind '
+        'quantifier (recorded only); extra scan.metadata keys of the re-parsed scan are ignored; children of the exported '
+        'Metadata element that the model does not write are ignored when the REGENERATED rule table allows them under '
+        'Metadata (the statement fixes one Metadata, one Page, parent/child validity and the re-parsed content, not which '
+        'optional Metadata fields are written), together with the xmltodict keys / re-parsed metadata keys they produce; the '
+        'Metadata children the model writes are compared exactly. WAVE 4 (case kind '
         '`history`): the model export is a pure function of the exported element, so ONE model answer per exported element must '
         'match EVERY export of it in a history; the harness keeps every product (lxml tree or string) of a sequence of '
         'to_pagexml() / to_pagexml(tostring=True) calls on the document and on its regions / lines / words (other read accesses — '
@@ -555,6 +624,32 @@ class C07(Check):
                 # ("all text-hierarchy documents …": a scan holding a table region is not one — mirrored, recorded only)
                 out.append(Case('export-table', {'spec': s, 'route': 'api'}, ['api', 'table', OUTSIDE]))
         out.extend(self._history_cases(rng, tier))
+        out.extend(self._metadata_cases(rng, tier))
+        return out
+
+    @staticmethod
+    def _metadata_cases(rng: random.Random, tier: str) -> List[Case]:
+        """API-built scans whose metadata holds PAGE Metadata fields (Creator / Created / LastChange / Comments) — the
+        fields an export may write below Metadata.  Every fourth one holds a control character in one of these strings:
+        such a string cannot be written into ANY XML document (lxml refuses it for Creator today, as it does for an id
+        or a text), which is what the quantifier's "whose text consists of XML-legal characters" excludes — outside the
+        quantifier, recorded only.  (Appended after all other cases: their random stream is untouched.)"""
+        out: List[Case] = []
+        legal = {'Creator': ['me', 'x & <y>', 'é 中 "q"'], 'Comments': ['c', 'a < b & c', 'two  words', 'é'],
+                 'Created': ['2020-01-02T03:04:05'], 'LastChange': ['2021-03-04T05:06:07', '1577934245000']}
+        for i in range(16 if tier == 'quick' else 160):
+            spec = Gen7(rng, False).scan()
+            fields = rng.sample(sorted(legal), rng.randint(1, 4))
+            if i % 2 and 'Comments' not in fields:
+                fields.append('Comments')
+            kvs = [kv for kv in ((spec.get('meta') or {}).get('d') or [])] + [[f, rng.choice(legal[f])] for f in fields]
+            tags = ['api', 'scan', 'page-metadata']
+            if i % 4 == 3:
+                f = rng.choice([x for x in fields if x in ('Creator', 'Comments')] or ['Comments'])
+                kvs = [kv for kv in kvs if kv[0] != f] + [[f, rng.choice(['a\x00b', '\x0b', 'x\x1fy', '\x08 z'])]]
+                tags += [OUTSIDE, 'xml-illegal-metadata']
+            spec['meta'] = {'d': kvs}
+            out.append(Case('export', {'spec': spec, 'route': 'api'}, tags))
         return out
 
     def _history_cases(self, rng: random.Random, tier: str) -> List[Case]:
@@ -796,7 +891,9 @@ class C07(Check):
         if 'ok' not in m:
             return f'impl exports, model {m}'
         mo = m['ok']
-        d = G._first_diff(canon_tree(out['tree']), canon_tree(mo['tree']))
+        # (extra rule-conforming children of Metadata are left free by the statement: see extra_meta_tags)
+        extra = extra_meta_tags(out['tree'], mo['tree'])
+        d = G._first_diff(canon_tree(drop_meta_children(out['tree'], extra)), canon_tree(mo['tree']))
         if d is not None:
             return f'exported tree differs at {d}'
         if out['tree']['ns'] != mo['ns']:
@@ -808,7 +905,7 @@ class C07(Check):
             real = out['xmltodict']
             if 'ok' not in real:
                 return f'xmltodict.parse on the exported string: {real}'
-            d = D.first_diff(canon_keys(_canon_root(real['ok'])), canon_keys(_canon_root(mo['dict'])))
+            d = D.first_diff(canon_keys(_canon_root(drop_meta_keys(real['ok'], extra))), canon_keys(_canon_root(mo['dict'])))
             if d is not None:
                 return f'xmltodict.parse(exported string) differs from toDict of the model tree at {d}'
         mp = mo['parsed']
@@ -820,7 +917,12 @@ class C07(Check):
                 if 'ok' not in mp:
                     return f'parse_pagexml_file succeeds, model parser on the model tree: {mp}'
                 # (as in the C01 correspondence: extra scan.metadata keys ignored, a falsy reading order is one value)
-                d = D.scan_diff({'ok': out['reparsed_dump']}, {'ok': D.norm_scan(mp['ok'])})
+                # … and the metadata keys that the parser carries over from those extra Metadata children of the
+                # exported file: the statement's list of what the re-parse reproduces does not contain them
+                rd = out['reparsed_dump']
+                if extra:
+                    rd = dict(rd, metadata=[kv for kv in rd.get('metadata') or [] if kv[0] not in extra])
+                d = D.scan_diff({'ok': rd}, {'ok': D.norm_scan(mp['ok'])})
                 if d is not None:
                     return f'parse_pagexml_file(exported string) differs from parseScan(toDict(model tree)) at {d}'
         # instances of the theorems: C07_export_tree (the export is the pure tree) and C07_roundtrip
@@ -861,7 +963,7 @@ class C07(Check):
 
     def _oracle(self, case: Case, out: Any) -> List[Finding]:
         fs: List[Finding] = []
-        if case.kind not in ('export', 'history') or 'unbuildable' in out:
+        if case.kind not in ('export', 'history') or 'unbuildable' in out or OUTSIDE in case.tags:
             return fs
         forced = [t[4:] for t in case.tags if t.startswith('key:')]
 
